@@ -9,6 +9,7 @@ import astropy.units as u
 from astropy.time import Time
 import pulsarbat as pb
 from harness.common import qlit, zlit, optlit
+from harness.common import asked_before
 from harness import exact as X
 
 VFILES = ['Lib/PySlice.v', 'Model/FastLen.v', 'Gen/GenUtils.v', 'Model/Ledger.v', 'Model/Snippet.v', 'Proofs/LedgerProofs.v',
@@ -121,6 +122,8 @@ def run(ctx):
         ctx.count('form:' + form)
         ctx.count('malformed' if bad else ('whole' if ti == int(ti) else 'fractional'))
         err = None
+        if asked_before(ctx, rng, lambda: pb.snippet(z, targ, n)):
+            inp['asked_before'] = True
         try:
             y = pb.snippet(z, targ, n)
         except ValueError as e:
